@@ -595,8 +595,12 @@ fn match_with_rule<'src>(
 
             asm::RulePatternPart::Whitespace =>
             {
+                // A comment separates tokens just like a blank does
+                let next_kind = walker.next_token().kind;
+
                 if !walker.is_over() &&
-                    walker.next_token().kind != syntax::TokenKind::Whitespace
+                    next_kind != syntax::TokenKind::Whitespace &&
+                    next_kind != syntax::TokenKind::Comment
                 {
                     return vec![];
                 }
